@@ -454,7 +454,7 @@ def _check(E, ci, id_, cond):
     if z3.is_true(cond):
         return UNIT
     if E._check(z3.Not(cond)):
-        m = E.solver.model()
+        m = E.last_retry_model or E.solver.model()
         E.violations.append((cid, E.concrete_inputs(m), list(E.taken)))
     try:
         E.assume(cond)
@@ -482,7 +482,7 @@ def _known_finding(E, ci, role, cond):
         E.path_kf.append((r, E.concrete_inputs()))
     elif cond is not False:
         if E._check(cond):
-            E.path_kf.append((r, E.concrete_inputs(E.solver.model())))
+            E.path_kf.append((r, E.concrete_inputs(E.last_retry_model or E.solver.model())))
     return UNIT
 
 
